@@ -463,6 +463,31 @@ def _r4(ctx, repo, An):
     else:
         ctx.fail("C07.R4", "Process.cpu_percent:negative", fi.file, fi.node.lineno, fi.qual,
                  "a negative interval is not rejected before sampling")
+    # the two system-wide entry points validate the interval the same way
+    for q in ("cpu_percent", "cpu_times_percent"):
+        f2 = repo.func("psutil", q)
+        c2 = An.cfg(f2)
+        p0 = f2.node.args.args[0].arg if f2.node.args.args else "interval"
+        good2 = False
+        for r in [n for n in c2.nodes if n.kind == "raise" and "ValueError" in norm_stmt(n.stmt)]:
+            gs = c2.guards(r)
+            if len(gs) == 1 and gs[0][1] is True:
+                samples = {None: False, -1: True, -0.5: True, 0: False, 0.0: False, 2: False}
+                if {k: eval_pred(gs[0][0], {p0: k}) for k in samples} == samples:
+                    tn = [x for x in c2.nodes if x.kind == "test" and x.expr is gs[0][0]][0]
+                    inner = [c for c in calls_in(f2.node)
+                             if (dotted(c.func) or "").split(".")[-1] in ("cpu_times", "sleep")]
+                    if all(c2.dominates(tn, n) for c in inner for n in c2.owners(c)
+                           if not any(n.stmt is not None and any(x is n.stmt for x in ast.walk(d))
+                                      for d in ast.walk(f2.node)
+                                      if isinstance(d, ast.FunctionDef) and d is not f2.node)):
+                        good2 = True
+        if good2:
+            ctx.ok("C07.R4", f"{q}:negative", sample="interval<0 (only) -> ValueError first")
+        else:
+            ctx.fail("C07.R4", f"{q}:negative", f2.file, f2.node.lineno, f2.qual,
+                     f"{q}(): ValueError is not raised exactly for a negative interval, "
+                     f"before sampling (interval=0 and None are valid, non-blocking calls)")
     # both samples stored on every non-raising path that computed something
     w1 = [n for n in cfg.nodes if n.kind == "stmt" and isinstance(n.stmt, ast.Assign)
           and dotted(n.stmt.targets[0]) == "self._last_sys_cpu_times"]
